@@ -8,7 +8,7 @@ faults, checked step by step against Python lists of serialised groups.
 from ..rng import digest
 
 PROPERTY = 'C18'
-TIERS = {'quick': {'runs': 240000, 'group': 3000}, 'thorough': {'runs': 4000000, 'group': 25000}}
+TIERS = {'quick': {'runs': 160000, 'group': 2500}, 'thorough': {'runs': 4000000, 'group': 25000}}
 RULE = ('Each run builds 1-2 argument lists (direct TexArgs, or node.args of a parsed command or environment) '
         'from a pool of brace/bracket groups with duplicates, then applies a history of 1-40 operations (append, '
         'extend, insert at any index in [-(len+2), len+2], remove, pop() / pop(i), reverse, clear, x[i], x[a:b:c], '
@@ -17,7 +17,7 @@ RULE = ('Each run builds 1-2 argument lists (direct TexArgs, or node.args of a p
         'compared with a Python list of serialised groups. Non-trivial: at least one mutating operation succeeded; '
         'distinct by digest of (owners, initial groups, resolved operations).')
 STUBS = []
-PROBES = ['whitespace-in-shadow-list', 'owner-reassigned', 'same-object-twice', 'duplicate-present', 'insert-negative', 'insert-beyond-len', 'pop-default', 'rejected-malformed',
+PROBES = ['extend-self', 'whitespace-in-shadow-list', 'owner-reassigned', 'same-object-twice', 'duplicate-present', 'insert-negative', 'insert-beyond-len', 'pop-default', 'rejected-malformed',
           'rejected-absent', 'rejected-index', 'slice-alias-mutated', 'owner-cmd', 'owner-env', 'string-coerced']
 ASSUMPTIONS = ['whitespace-only strings are not part of the operation set (the property does not define them)',
                'extend() is only given well-formed elements']
@@ -30,7 +30,9 @@ MUTATING = ('append', 'extend', 'insert', 'remove', 'pop', 'pop0', 'reverse', 'c
 
 
 def setup(job):
-    pass
+    # the step clock bounds every operation: `args.extend(args)` must terminate
+    from ..stepclock import CLOCK
+    CLOCK.install()
 
 
 def teardown(job):
@@ -143,6 +145,8 @@ def run(case):
             as_obj = bool(b & 1)
             if len(set(M)) < len(M):
                 count('probe.duplicate-present')
+            from ..stepclock import CLOCK, StepBudgetExceeded
+            CLOCK.start(budget=200_000)
             try:
                 if op in ('append', 'insert') and n and c % 6 == 5:
                     # re-use an element that is already in the list (the same
@@ -158,6 +162,12 @@ def run(case):
                         desc = ('insert', k, i, 'args[%d]' % j)
                         M.insert(i, M[j])
                         R.insert(i, R[j])
+                elif op == 'extend' and n and c % 6 == 4:
+                    # a list extended by itself doubles (l.extend(l))
+                    desc = ('extend', k, 'args')
+                    count('probe.extend-self')
+                    M.extend(list(M))
+                    R.extend(R)
                 elif op == 'extend' and n and c % 6 == 5:
                     lo = b % n
                     desc = ('extend', k, 'args[%d:%d]' % (lo, lo + 2))
@@ -292,9 +302,14 @@ def run(case):
                         R.remove(s)
                 else:
                     raise AssertionError(op)
+            except StepBudgetExceeded:
+                real_exc = 'StepBudgetExceeded'
+                real_msg = 'the operation did not finish within 200000 steps'
             except Exception as e:  # noqa: BLE001
                 real_exc = type(e).__name__
                 real_msg = str(e)[:100]
+            finally:
+                CLOCK.stop()
             resolved.append(desc)
             log.append((step, [str(x) for x in desc], real_exc, str(real_ret)))
             count('op.' + op)
@@ -307,6 +322,10 @@ def run(case):
                     if real_exc is None:
                         violation = {'class': 'not-rejected', 'detail': 'step %d %r on %r: a Python list raises %s, '
                                      'TexArgs returned %r' % (step, desc, M, exp_exc, real_ret)}
+                    elif real_exc == 'StepBudgetExceeded':
+                        violation = {'class': 'hang', 'detail': 'step %d %r on list %r does not terminate (more than '
+                                     '200000 steps); a Python list %s' % (step, desc, M[:6], 'raises ' + exp_exc
+                                                                         if exp_exc else 'succeeds')}
                     else:
                         violation = {'class': 'exception:%s' % real_exc, 'detail': 'step %d %r on list %r raised %s '
                                      '(%s); a Python list %s' % (step, desc, model[k], real_exc, real_msg,
